@@ -49,7 +49,7 @@ func (a *FragmentFormatter) Format(f *highlight.Fragment, orderedTermLocations h
 		if !termLocation.ArrayPositions.Equals(f.ArrayPositions) {
 			continue
 		}
-		if termLocation.Start < curr {
+		if termLocation.Start < curr || termLocation.End < termLocation.Start {
 			continue
 		}
 		if termLocation.End > f.End {
